@@ -10,6 +10,7 @@ import (
 	"os"
 	"runtime"
 	"runtime/debug"
+	"syscall"
 	"testing"
 	"time"
 
@@ -29,6 +30,8 @@ type c08rConn struct {
 	in      [][]byte
 	from    []net.Addr
 	written map[string][][]byte
+	// failWrites is the number of writes that fail before writes succeed.
+	failWrites int
 }
 
 func (c *c08rConn) ReadFrom(p []byte) (int, net.Addr, error) {
@@ -43,6 +46,11 @@ func (c *c08rConn) ReadFrom(p []byte) (int, net.Addr, error) {
 }
 
 func (c *c08rConn) WriteTo(p []byte, a net.Addr) (int, error) {
+	if c.failWrites > 0 {
+		c.failWrites--
+
+		return 0, &net.OpError{Op: "write", Net: "udp", Err: syscall.EMSGSIZE}
+	}
 	c.written[a.String()] = append(c.written[a.String()], append([]byte{}, p...))
 
 	return len(p), nil
@@ -95,11 +103,21 @@ type c08rEnv struct {
 	order []int
 }
 
-func c08rSetup(order []int, s *xsched.Sched) *c08rEnv {
+// c08rSetup prepares the server and the datagrams.  With fault set, the write
+// of one earlier response fails first (the error path of the writer runs),
+// before the clients of the scenario arrive.
+func c08rSetup(order []int, fault bool, s *xsched.Sched) *c08rEnv {
 	srv := NewServerDNS(ConfigDNS{ConfigBase: ConfigBase{Name: "verif", Addr: "127.0.0.1:0", Handler: c08rHandler{}}, MaxUDPRespSize: 4096})
 	srv.started = true
 	srv.workerPool.Release()
 	env := &c08rEnv{conn: &c08rConn{written: map[string][][]byte{}}, order: order}
+	if fault {
+		m, a, _ := c08rQuery(3)
+		b, _ := m.Pack()
+		pre := &c08rConn{written: map[string][][]byte{}, in: [][]byte{b}, from: []net.Addr{a}, failWrites: 2}
+		_ = srv.acceptUDPMsg(context.Background(), pre)
+		srv.wg.Wait()
+	}
 	for _, i := range order {
 		m, a, _ := c08rQuery(i)
 		b, _ := m.Pack()
@@ -135,6 +153,9 @@ func c08rCheck(env *c08rEnv, x *xsched.Exec) []vrt.Finding {
 		if err := m.Unpack(ws[0]); err != nil {
 			return vrt.F("udp-race/undecodable-response", "client %d: %v", i, err)
 		}
+		if m.Id != q.Id || len(m.Question) != 1 || m.Question[0].Name != q.Question[0].Name {
+			return vrt.F("udp-race/response-of-another-client", "client %d asked %s (id %#x) and received a response with id %#x for %v\nschedule:\n%s", i, q.Question[0].Name, q.Id, m.Id, m.Question, x.Sched.Describe())
+		}
 		if (m.IsEdns0() != nil) != (q.IsEdns0() != nil) {
 			return vrt.F("udp-race/opt-presence-differs-from-own-query", "client %d: query has OPT %t, response has OPT %t\nschedule:\n%s", i, q.IsEdns0() != nil, m.IsEdns0() != nil, x.Sched.Describe())
 		}
@@ -152,6 +173,7 @@ func c08rCheck(env *c08rEnv, x *xsched.Exec) []vrt.Finding {
 
 type c08rCase struct {
 	Order   []int `json:"clients_in_arrival_order"`
+	Fault   bool  `json:"an_earlier_response_write_failed"`
 	Choices []int `json:"choices"`
 }
 
@@ -161,7 +183,7 @@ func TestVerifC08UDPRace(t *testing.T) {
 	var rc c08rCase
 	if r.ReplayCase("udp-race", &rc) {
 		var env *c08rEnv
-		x := xsched.Replay(rc.Choices, func(s *xsched.Sched) { env = c08rSetup(rc.Order, s) })
+		x := xsched.Replay(rc.Choices, func(s *xsched.Sched) { env = c08rSetup(rc.Order, rc.Fault, s) })
 		r.Eval()
 		r.Report("udp-race", rc, c08rCheck(env, x))
 	}
@@ -171,8 +193,10 @@ func TestVerifC08UDPRace(t *testing.T) {
 		orders := [][]int{{0, 1}, {1, 0}, {0, 2}, {2, 0}, {1, 2}, {2, 1}, {0, 1, 2}, {1, 0, 2}, {2, 1, 0}}
 		r.Bound("udp_race_preemptions", vrt.Pick(r, "2 datagrams: 3, 3 datagrams: 2", "2 datagrams: unbounded, 3 datagrams: 3"))
 		r.Bound("udp_race_arrival_orders", len(orders))
-		for oi, order := range orders {
-			if oi%nshards != shard {
+		for oi2 := 0; oi2 < 2*len(orders); oi2++ {
+			oi, fault := oi2/2, oi2%2 == 1
+			order := orders[oi]
+			if oi2%nshards != shard {
 				continue
 			}
 			pre := vrt.Pick(r, 3, -1)
@@ -186,7 +210,7 @@ func TestVerifC08UDPRace(t *testing.T) {
 					if execs++; execs%2000 == 0 {
 						runtime.GC()
 					}
-					env = c08rSetup(order, s)
+					env = c08rSetup(order, fault, s)
 				},
 				func(x *xsched.Exec) bool {
 					r.Eval()
@@ -200,9 +224,9 @@ func TestVerifC08UDPRace(t *testing.T) {
 							sizes += fmt.Sprintf("%d:%d ", i, len(w))
 						}
 					}
-					r.State(fmt.Sprintf("udp-race %v %s", order, sizes))
+					r.State(fmt.Sprintf("udp-race %v %v %s", order, fault, sizes))
 					if len(fs) > 0 {
-						r.Report("udp-race", c08rCase{Order: order, Choices: x.Choices}, fs)
+						r.Report("udp-race", c08rCase{Order: order, Fault: fault, Choices: x.Choices}, fs)
 						found++
 					}
 
